@@ -1,0 +1,60 @@
+//! Verification hook H2 (only compiled with `--cfg rustrtc_verif`).
+//!
+//! `yield_point(id)` is called immediately before every shared-memory access of the sample
+//! queue (`media::spsc`, `media::track`).  A thread that installed a hook with `set_hook` is
+//! handed the id and may block there until an external deterministic scheduler lets it go on;
+//! threads without a hook (every thread of a normal build or test run) fall straight through.
+//! The hook is thread-local, so enabling it in one test thread affects nothing else.
+use std::cell::RefCell;
+
+thread_local! {
+    static HOOK: RefCell<Option<Box<dyn Fn(u32)>>> = const { RefCell::new(None) };
+}
+
+/// Install (or remove, with `None`) the yield hook of the calling thread.
+pub fn set_hook(hook: Option<Box<dyn Fn(u32)>>) {
+    HOOK.with(|h| *h.borrow_mut() = hook);
+}
+
+#[inline]
+pub fn yield_point(id: u32) {
+    HOOK.with(|h| {
+        if let Some(f) = h.borrow().as_ref() {
+            f(id)
+        }
+    });
+}
+
+// yield-point ids: media::spsc
+pub const PUSH_LOAD_TAIL: u32 = 1;
+pub const PUSH_LOAD_HEAD: u32 = 2;
+pub const PUSH_WRITE: u32 = 3;
+pub const PUSH_STORE_TAIL: u32 = 4;
+pub const POP_LOAD_HEAD: u32 = 5;
+pub const POP_LOAD_TAIL: u32 = 6;
+pub const POP_READ: u32 = 7;
+pub const POP_STORE_HEAD: u32 = 8;
+/// before both loads of `is_empty()` (one expression in the source)
+pub const EMPTY_LOADS: u32 = 9;
+// media::track, source side
+pub const SRC_LOAD_CLOSED: u32 = 20;
+pub const SRC_NOTIFY_ONE: u32 = 21;
+pub const SRC_TRY_LOCK: u32 = 22;
+pub const SRC_UNLOCK: u32 = 23;
+pub const SRC_CLONE_FETCH_ADD: u32 = 24;
+pub const SRC_DROP_FETCH_SUB: u32 = 25;
+pub const SRC_DROP_STORE_CLOSED: u32 = 26;
+pub const SRC_DROP_NOTIFY: u32 = 27;
+// media::track, SampleStreamTrack::recv / stop
+pub const RECV_LOAD_ENDED: u32 = 30;
+pub const RECV_LOCK: u32 = 31;
+pub const RECV_UNLOCK_RET: u32 = 32;
+pub const RECV_LOAD_CLOSED1: u32 = 33;
+pub const RECV_STORE_ENDED1: u32 = 34;
+pub const RECV_UNLOCK_EOS: u32 = 35;
+pub const RECV_UNLOCK_WAIT: u32 = 36;
+pub const RECV_NOTIFIED: u32 = 37;
+pub const RECV_LOAD_CLOSED2: u32 = 38;
+pub const RECV_STORE_ENDED2: u32 = 39;
+pub const STOP_STORE_ENDED: u32 = 40;
+pub const STOP_NOTIFY: u32 = 41;
